@@ -42,6 +42,7 @@ type Attr struct {
 	Desc int      `json:"desc"`
 	Req  []string `json:"req"`
 	Val  int      `json:"val"`
+	Enum []int    `json:"enum"`
 	Meta []int    `json:"meta"`
 	Tags Tags     `json:"tags"`
 	X    int      `json:"x"`
@@ -180,8 +181,14 @@ func decorate(att *expr.AttributeExpr, a Attr) {
 	if a.Desc > 0 {
 		att.Description = "d" + strconv.Itoa(a.Desc)
 	}
-	if a.Val > 0 || len(a.Req) > 0 {
+	if a.Val > 0 || len(a.Req) > 0 || len(a.Enum) > 0 {
 		v := &expr.ValidationExpr{}
+		for _, e := range a.Enum {
+			if v.Values == nil {
+				v.Values = make([]any, 0, len(a.Enum))
+			}
+			v.Values = append(v.Values, "e"+strconv.Itoa(e))
+		}
 		if a.Val > 0 {
 			k := a.Val
 			v.MinLength = &k
@@ -276,7 +283,7 @@ func num(s, prefix string) int {
 }
 
 func (w *walker) attr(name string, att *expr.AttributeExpr) Attr {
-	a := Attr{Name: name, Req: []string{}, Meta: []int{}}
+	a := Attr{Name: name, Req: []string{}, Meta: []int{}, Enum: []int{}}
 	if att == nil {
 		a.Ref = Ref{P: "?nilattr"}
 		return a
@@ -290,7 +297,11 @@ func (w *walker) attr(name string, att *expr.AttributeExpr) Attr {
 		if v.MinLength != nil {
 			a.Val = *v.MinLength
 		}
-		if len(v.Values) > 0 || v.Format != "" || v.Pattern != "" || v.ExclusiveMinimum != nil || v.Minimum != nil ||
+		for _, e := range v.Values {
+			es, _ := e.(string)
+			a.Enum = append(a.Enum, num(es, "e"))
+		}
+		if v.Format != "" || v.Pattern != "" || v.ExclusiveMinimum != nil || v.Minimum != nil ||
 			v.Maximum != nil || v.ExclusiveMaximum != nil || v.MaxLength != nil {
 			a.X++
 		}
@@ -653,6 +664,26 @@ func applyStep(root expr.DataType, s Step) {
 			v = "v8"
 		}
 		attrAt(dt, s.Idx).AddMeta(metaDoc, v)
+	case "metaset": // writes into what exists: element assignment, in-place reordering, slot reassignment
+		v := "v9"
+		if s.Side == "orig" {
+			v = "v8"
+		}
+		attrAt(dt, s.Idx).Meta[metaDoc][0] = v
+	case "metarev":
+		m := attrAt(dt, s.Idx).Meta[metaDoc]
+		for i, j := 0, len(m)-1; i < j; i, j = i+1, j-1 {
+			m[i], m[j] = m[j], m[i]
+		}
+	case "tagset":
+		attrAt(dt, s.Idx).Meta[metaName][0] = "n3"
+	case "reqset":
+		attrAt(dt, s.Idx).Validation.Required[0] = map[string]string{"orig": "o3", "copy": "c3"}[s.Side]
+	case "enumset":
+		attrAt(dt, s.Idx).Validation.Values[0] = map[string]string{"orig": "e8", "copy": "e9"}[s.Side]
+	case "slot":
+		sl := named(dt)
+		(*sl)[s.Idx-1] = &expr.NamedAttributeExpr{Name: (*sl)[s.Idx-1].Name, Attribute: fresh()}
 	case "tag":
 		att := attrAt(dt, s.Idx)
 		if att.Meta == nil {
